@@ -49,8 +49,8 @@ structure RefCellData where
   referenceCellVolume : Option Rat
   referenceFacetVolume : Option Rat
   referenceCellEdgeVectors : Option (List (List Rat))
-  /-- `[facet][edge][component]` -/
-  referenceFacetEdgeVectors : Option (List (List (List Rat)))
+  /-- flat: the edge vectors of all facets, facet by facet (`[Σ edges][component]`) -/
+  referenceFacetEdgeVectors : Option (List (List Rat))
   facetEdgeVertices : Option (List (List (List Nat)))
   facetOrientation : Option (List Int)
   access : List AccessInfo
